@@ -59,7 +59,7 @@ void sched_set_state_fn(unsigned long long (*fn)(void))
 }
 
 #ifndef SCHED_WATCHDOG_S
-#define SCHED_WATCHDOG_S 20
+#define SCHED_WATCHDOG_S 8
 #endif
 static long futex(int* uaddr, int op, int val)
 {
